@@ -327,7 +327,7 @@ func parseOps(b []byte) (ops []op, bounded bool) {
 				ops = append(ops, op{"op": "EOF"})
 				return
 			}
-			ops = append(ops, op{"op": "BINGET", "i": int(binary.LittleEndian.Uint32(b[i:]))})
+			ops = append(ops, op{"op": "BINGET", "i": min(int(binary.LittleEndian.Uint32(b[i:])), 1000000000)})
 			i += 4
 		case opBININT1:
 			if !need(1) {
@@ -737,7 +737,7 @@ func TestVerifPickle(t *testing.T) {
 	var batch []map[string]any
 	nline := 0
 	flush := func(prefix string, force bool, size int) {
-		if len(batch) >= size || (force && len(batch) > 0) {
+		if len(batch) > 0 && (len(batch) >= size || force) {
 			b, _ := json.Marshal(map[string]any{"id": fmt.Sprintf("%s-%d", prefix, nline), "events": batch})
 			of.Write(append(b, '\n'))
 			nline++
